@@ -96,3 +96,9 @@ Proof.
       * intros c Hc. cbn in Hc |- *. tauto.
     + vm_compute in E. inversion E; subst. vm_compute. auto 10.
 Qed.
+
+Example C20_sync_only_adds_nonvacuous :
+  exists d' s', receive_sync_message (mkDoc [ex_c2] []) (@fresh_state (list N))
+                  (mkMsg [33] [] [] (Some [ex_c3; ex_c1]) (Some 4)) = Ok (d', s') /\
+    hashes (applied d') = [22; 11; 33] /\ shared_heads s' = [33].
+Proof. do 2 eexists. repeat split; vm_compute; reflexivity. Qed.
